@@ -11,7 +11,7 @@ ID = 'C05'
 PADMODES = ('symmetric', 'reflect', 'periodic')
 RULE = ('Hypothesis draws (dim, direction analysis/synthesis, wavelet with filter length <= 20, mode (5), J in 1..3, sizes '
         'incl. odd and shorter than the filter (1-D <= 48, 2-D <= 12x12), N, C, the subset of {lowpass, level 1..J} that '
-        'requires grad (synthesis), in 2-D for a third of the cases separate column and row wavelets (4-tuple), cotangent recipes; for a quarter of the cases the filters of the module are overwritten in place between the forward pass and a second pull-back through the recorded graph, which must be refused or unchanged). Oracle: the matrix J_f of the function computed by the forward pass '
+        'requires grad (synthesis), in 2-D for a third of the cases separate column and row wavelets (4-tuple), cotangent recipes; in zero mode for a third of the free cases a hand-made bank with 3-9 taps (odd counts included); for a quarter of the cases the filters of the module are overwritten in place between the forward pass and a second pull-back through the recorded graph, which must be refused or unchanged). Oracle: the matrix J_f of the function computed by the forward pass '
         '(basis inputs, no_grad); torch.autograd.grad with basis cotangents in batch slots must give J_f^T for every input of '
         'the subset (never None); a dense (N,C) VJP must equal the per-slice action of that matrix. Inside the predicate of '
         'known finding D2 the observed VJP must equal EITHER J_f^T OR the independently modelled defective operator (adjoint '
@@ -59,7 +59,19 @@ def _case(draw, unit):
         size[1] = draw(dwtu.size_strategy(L2, J, cap=cap))
         if mode == 'periodization':
             size[1] = max(size[1], dwtu.even_up(L2) * 2 ** (J - 1))
-    case = {'dim': dim, 'direction': direction, 'wave': w, 'wave_row': w2, 'mode': mode, 'J': J, 'size': size,
+    custom = None
+    if not unit.get('wave') and mode == 'zero' and w2 is None and draw(st.integers(0, 2)) == 0:
+        # a hand-made filter bank, also with an odd number of taps (LeGall 5/3- or 9/7-like banks padded to a common
+        # length): the adjoint relation does not care what the taps are
+        Lc = draw(st.sampled_from([3, 5, 5, 7, 9, 4, 6]))
+        taps = st.sampled_from([-0.125, 0.25, 0.75, 0.5, -0.5, 1.0, 0.0, 0.375, -1.0, 0.0625])
+        custom = {'lo': [draw(taps) for _ in range(Lc)], 'hi': [draw(taps) for _ in range(Lc)]}
+        if not any(custom['lo']):
+            custom['lo'][Lc // 2] = 1.0
+        if not any(custom['hi']):
+            custom['hi'][Lc // 2] = 1.0
+        size = [draw(dwtu.size_strategy(Lc, J, cap=cap)) for _ in range(dim)]
+    case = {'dim': dim, 'direction': direction, 'wave': w, 'wave_row': w2, 'mode': mode, 'J': J, 'size': size, 'custom': custom,
             'N': draw(st.sampled_from([1, 2])), 'C': draw(st.sampled_from([1, 2])),
             'reused': draw(st.integers(0, 3)) == 0, 'overwrite': draw(st.integers(0, 3)) == 0,
             'rx': draw(core.recipe_strategy()), 'rg': draw(core.recipe_strategy(kinds=core.RECIPE_KINDS + ['contrast'])), 'k': draw(st.integers(0, 10**6))}
@@ -171,6 +183,17 @@ def synthesis_defect_model(lo_shape, hi_shapes, waves, mode):
 
 
 # ---------------------------------------------------------------- the check
+def _lens(case):
+    """Filter length per axis (hand-made banks carry their taps in the case)."""
+    if case.get('custom'):
+        return [len(case['custom']['lo'])] * case['dim']
+    return [dwtu.flen(n_) for n_ in _wave_names(case)]
+
+
+def _waves(case):
+    return None if case.get('custom') else [pywt.Wavelet(n_) for n_ in _wave_names(case)]
+
+
 def _wave_names(case):
     if case['dim'] == 1:
         return [case['wave']]
@@ -178,7 +201,9 @@ def _wave_names(case):
 
 
 def _wave_arg(case, kind):
-    """The `wave` constructor argument: a name, or a 4-tuple (col lo, col hi, row lo, row hi)."""
+    """The `wave` constructor argument: a name, a hand-made (lo, hi) pair, or a 4-tuple (col lo, col hi, row lo, row hi)."""
+    if case.get('custom'):
+        return (np.array(case['custom']['lo'], dtype=np.float64), np.array(case['custom']['hi'], dtype=np.float64))
     if not case.get('wave_row'):
         return case['wave']
     wc, wr = pywt.Wavelet(case['wave']), pywt.Wavelet(case['wave_row'])
@@ -196,11 +221,12 @@ def run_case(case):
     dim, w, mode, J = case['dim'], case['wave'], case['mode'], case['J']
     size = list(case['size'])
     names = _wave_names(case)
-    Ls = [dwtu.flen(n_) for n_ in names]
+    Ls = _lens(case)
     per_axis = [dwtu.level_lengths(n, L, mode, J) for n, L in zip(size, Ls)]
     r.label('dim%d' % dim, case['direction'], mode, 'J>=2' if J >= 2 else None,
             'odd' if any(n % 2 for n in size) else None, 'short<L' if any(n < L for n, L in zip(size, Ls)) else None,
-            'separate_row_col_filters' if case.get('wave_row') else None)
+            'separate_row_col_filters' if case.get('wave_row') else None,
+            'hand_made_bank' if case.get('custom') else None, 'odd_tap_count' if case.get('custom') and Ls[0] % 2 else None)
     with dwtu.default_dtype(torch.float64):
         if case['direction'] == 'analysis':
             return _analysis(case, r, per_axis)
@@ -212,8 +238,8 @@ def _analysis(case, r, per_axis):
     dim, w, mode, J = case['dim'], case['wave'], case['mode'], case['J']
     size = list(case['size'])
     names = _wave_names(case)
-    Ls = [dwtu.flen(n_) for n_ in names]
-    waves = [pywt.Wavelet(n_) for n_ in names]
+    Ls = _lens(case)
+    waves = _waves(case)
     in_d1 = any(dwtu.d1_analysis(ns, L, mode) or dwtu.d1_synthesis(ks, L, mode) for (ns, ks), L in zip(per_axis, Ls))
     may_raise = any(dwtu.reflect_may_raise(ns, L, mode) for (ns, _), L in zip(per_axis, Ls))
     d2a = mode in PADMODES
@@ -221,7 +247,7 @@ def _analysis(case, r, per_axis):
     r.label('in_D2_predicate' if (d2a or d2b) else None, 'in_D1_predicate' if in_d1 else None)
     r.nontrivial = J >= 2 or any(n % 2 for n in size) or mode != 'zero'
     cls = DWT1DForward if dim == 1 else DWTForward
-    sib = dwtu.sibling(w) if (case.get('reused') and not case.get('wave_row') and mode != 'reflect') else None
+    sib = dwtu.sibling(w) if (case.get('reused') and not case.get('wave_row') and not case.get('custom') and mode != 'reflect') else None
     if sib is None:
         fwd = cls(J=J, wave=_wave_arg(case, 'dec'), mode=mode)
     else:
@@ -318,8 +344,8 @@ def _synthesis(case, r, per_axis):
     dim, w, mode, J = case['dim'], case['wave'], case['mode'], case['J']
     size = list(case['size'])
     wnames = _wave_names(case)
-    Ls = [dwtu.flen(n_) for n_ in wnames]
-    waves = [pywt.Wavelet(n_) for n_ in wnames]
+    Ls = _lens(case)
+    waves = _waves(case)
     sub = case['grad']
     names = ['low'] + list(range(J))
     in_d1 = any(dwtu.d1_synthesis(ks, L, mode) or dwtu.d1_analysis([2 * k for k in ks], L, mode)
@@ -330,7 +356,7 @@ def _synthesis(case, r, per_axis):
             'low_without_grad' if 'low' not in sub else None)
     r.nontrivial = len(sub) < J + 1 or J >= 2 or any(n % 2 for n in size) or mode != 'zero'
     cls = DWT1DInverse if dim == 1 else DWTInverse
-    sib = dwtu.sibling(w) if (case.get('reused') and not case.get('wave_row') and mode != 'reflect') else None
+    sib = dwtu.sibling(w) if (case.get('reused') and not case.get('wave_row') and not case.get('custom') and mode != 'reflect') else None
     if sib is None:
         inv = cls(wave=_wave_arg(case, 'rec'), mode=mode)
     else:
